@@ -25,7 +25,7 @@ for pid in ids:
     })
 m = {
     "version": 1,
-    "setup_cmd": "cd /verif/harness && CARGO_NET_OFFLINE=true CARGO_TARGET_DIR=/verif/.build/target cargo build --offline --release --bins && CARGO_NET_OFFLINE=true CARGO_TARGET_DIR=/verif/.build/target cargo build --offline --release --bin c20 --features az && CARGO_NET_OFFLINE=true CARGO_TARGET_DIR=/verif/.build/target cargo build --offline --profile relsem --bin c12 --bin c17 && python3 /verif/checks/c20_driver.py --warm",
+    "setup_cmd": "cd /verif/harness && CARGO_NET_OFFLINE=true CARGO_TARGET_DIR=/verif/.build/target cargo build --offline --release --bins && CARGO_NET_OFFLINE=true CARGO_TARGET_DIR=/verif/.build/target cargo build --offline --release --bin c20 --features az && CARGO_NET_OFFLINE=true CARGO_TARGET_DIR=/verif/.build/target cargo build --offline --profile relsem --bins && python3 /verif/checks/c20_driver.py --warm",
     "hooks": {
         "guard": "vek_verif",
         "enable": "none needed: every check observes vek through its public API and public fields; RUSTFLAGS=\"--cfg vek_verif\" is reserved and currently guards nothing",
@@ -43,7 +43,7 @@ m = {
     ],
     "checks": out_checks,
     "not_applicable": na,
-    "notes": "All checks rebuild vek from /repo's working tree (cargo path dependency). exit 0 held / 1 VIOLATION / 2 machinery error. Known findings: /verif/known_findings.json.",
+    "notes": "All checks rebuild vek from /repo's working tree (cargo path dependency). exit 0 held / 1 VIOLATION / 2 machinery error. Known findings: /verif/known_findings.json. Build profile as a configuration: thorough tiers (and the quick tiers of C12, C17, and of any property when tools/profile_sites.py finds a profile-dependent construct that is not in its baseline) run each check twice, built with overflow checks and debug assertions on and off; the second run writes evidence_aux/<ID>.relsem.json and replays/<ID>-relsem/.",
 }
 json.dump(m, open(os.path.join(root, "MANIFEST.json"), "w"), indent=1)
 print("claimed:", [c["property_id"] for c in out_checks], "not_applicable:", len(na))
